@@ -72,7 +72,7 @@ for d in sorted(glob.glob(V + "/seeded/C??-?")):
     need = need.split(". ")[0][:130]
     st = m.get("status", "")
     fired = ", ".join(rules) if rules else ("— (%s)" % st.split(":")[0])
-    w("| %s | %s | %s | %s | %s |" % (m["seed"], summ.replace("|", "/"), need.replace("|", "/"), fired, "missed, then strengthened" if m.get("initially_missed") else ("caught by shape only, then made precise" if m.get("initially_imprecise") else "caught")))
+    w("| %s | %s | %s | %s | %s |" % (m["seed"], summ.replace("|", "/"), need.replace("|", "/"), fired, "missed, then strengthened" if m.get("initially_missed") else ("caught by shape only, then made precise" if m.get("initially_imprecise") else ("refused (exit 2), not reported" if m.get("refused_only") else "caught"))))
 w("")
 w("%d seeded changes; %d are detected by the committed checks on today's tree, %d of them only after the check was strengthened (history in each `meta.json`); "
   "seeds that no longer apply because a `fix:` commit rewrote the code they change are marked *superseded* with the mutant that replaces them.\n" % (n, caught, missed_first))
